@@ -15,6 +15,19 @@ CLAIMED = {
                      "stubbed) over symbolic interchange values; z3 decides every branch and the obligation is discharged "
                      "only when all paths are exhausted. Oracle is the code against itself, so no spec risk.",
                 design_ref="DESIGN.md 5/C03", technique="symbolic execution (CrossHair+z3) of both passes, relational oracle"),
+    'C04': dict(text="Symbolic execution of the public entry points (from_data, convert, Converter.convert) over symbolic interchange "
+                     "values including adversarial leaves (unhashable/odd-kinded tags, keys, literals; non-dict Mappings; hooks and "
+                     "predicates raising any of 9 exception classes); the verdict is the class of the escaping exception. Type-building "
+                     "clauses are enumerated assertions inside the same run.",
+                design_ref="DESIGN.md 5/C04", technique="symbolic execution (CrossHair+z3) of the entry points, exception-class oracle"),
+    'C09': dict(text="Symbolic execution of both passes, convert(), into_data() and dataclass construction on symbolic containers "
+                     "(CrossHair's list/dict proxies model in-place mutation), with a deep type-tagged snapshot compared before/after on "
+                     "every path; includes nested tagged unions and mappings whose reads can insert (defaultdict).",
+                design_ref="DESIGN.md 5/C09", technique="symbolic execution (CrossHair+z3), before/after snapshot oracle"),
+    'C11': dict(text="For 20 overlap-rich unions and their spellings, symbolic values are run through the union and through each member's own "
+                     "converter built separately; z3 decides which members accept, and the union must equal the left-most accepting one, "
+                     "on every path; serialisation must coincide with an accepting member's.",
+                design_ref="DESIGN.md 5/C11", technique="symbolic execution (CrossHair+z3), member converters as oracle"),
 }
 
 NA = {
